@@ -144,8 +144,20 @@ func e2eCLI(model map[string]interface{}) (bool, string) {
 	ref.CombinedOutput()
 	refContent, _ := os.ReadFile(filepath.Join(refDir, "setup.gen.go"))
 
+	type scenario struct {
+		kind    string
+		withOut bool
+		prior   bool // the output path already holds an older, longer output
+	}
+	var scenarios []scenario
 	for _, withOut := range []bool{false, true} {
-		dir := filepath.Join(tmp, fmt.Sprintf("m%v", withOut))
+		scenarios = append(scenarios, scenario{kind, withOut, false}, scenario{kind, withOut, true})
+	}
+	// a run that fails LATE (the generated code does not format), over an absent and a present output
+	scenarios = append(scenarios, scenario{"latefail", false, false}, scenario{"latefail", false, true})
+	for si, sc := range scenarios {
+		kind, withOut := sc.kind, sc.withOut
+		dir := filepath.Join(tmp, fmt.Sprintf("m%d", si))
 		switch kind {
 		case "ok":
 			writeModule(dir, e2eSetup)
@@ -153,12 +165,17 @@ func e2eCLI(model map[string]interface{}) (bool, string) {
 			writeModule(dir, e2eNoIntf)
 		case "missing":
 			writeModule(dir, "")
+		case "latefail":
+			writeModule(dir, strings.Replace(e2eSetup, "\t// SrcToDst copies a Src into a Dst.\n", "\t// SrcToDst copies a Src into a Dst.\n\t// :literal Name \"oops\n", 1))
 		}
 		var args []string
 		outName := "setup.gen.go"
 		if withOut {
 			outName = "custom_out.go"
 			args = append(args, "-out", outName)
+		}
+		if sc.prior {
+			os.WriteFile(filepath.Join(dir, outName), []byte(string(refContent)+"\n// tail of an older, longer output\nfunc Stale() {}\n"), 0644)
 		}
 		if dry {
 			args = append(args, "-dry")
@@ -186,7 +203,7 @@ func e2eCLI(model map[string]interface{}) (bool, string) {
 			}
 		}
 		after := snapshot(dir)
-		fmt.Fprintf(&log, "$ convergen %s   (input kind %s) -> exit %d\n", strings.Join(args, " "), kind, exit)
+		fmt.Fprintf(&log, "$ convergen %s   (input kind %s, older output present: %v) -> exit %d\n", strings.Join(args, " "), kind, sc.prior, exit)
 		wantExit := 0
 		if kind != "ok" {
 			wantExit = 1
@@ -391,14 +408,15 @@ func renderLayout(m map[string]interface{}) string {
 		comment(mint(m, "before.pos"), 1+mint(m, "before.lines"), "before")
 	}
 	la, ra := mint(m, "A.lbrace"), mint(m, "A.rbrace")
-	intf("type Convergen interface ", la, ra, truthy(m, "A.hasMethod"))
+	// (the line break in front keeps a preceding comment a group of its own instead of the interface's doc comment)
+	intf("\ntype Convergen interface ", la, ra, truthy(m, "A.hasMethod"))
 	if truthy(m, "commentInsideA") {
 		comment(mint(m, "inside.pos"), 1, "in")
 	}
 	end := ra
 	if truthy(m, "twoInterfaces") {
 		lb, rb := mint(m, "B.lbrace"), mint(m, "B.rbrace")
-		intf("// :convergen\ntype B interface ", lb, rb, false)
+		intf("\n// :convergen\ntype B interface ", lb, rb, false)
 		if truthy(m, "commentBetween") {
 			comment(mint(m, "between.pos"), 1, "mid")
 		}
@@ -452,6 +470,15 @@ func e2eLayout(model map[string]interface{}) (bool, string) {
 	}
 	if strings.Contains(stdout.String(), "interface") {
 		return true, "DEVIATION: interface or marker left in the output\n" + log
+	}
+	// comments outside the converter interfaces are carried over (C11)
+	for flag, text := range map[string]string{"commentBeforeA": "// before", "commentAfter": "// after"} {
+		if truthy(model, flag) && !strings.Contains(stdout.String(), text) {
+			return true, "DEVIATION: comment '" + text + "' outside the converter interfaces is missing from the output\n" + log
+		}
+	}
+	if truthy(model, "twoInterfaces") && truthy(model, "commentBetween") && !strings.Contains(stdout.String(), "// mid") {
+		return true, "DEVIATION: comment '// mid' between the converter interfaces is missing from the output\n" + log
 	}
 	return false, log
 }
